@@ -173,8 +173,20 @@ class Broker:
 
         # Update _margin requirements. Bid-ask spread is implicitly paid
         # here and now.
-        self._last_marking_to_market_price[trade.contract] = trade.acq_price
-        self.marking_to_market(trade.contract)
+        contract = trade.contract
+        if (
+            contract.margin_requirement != 0
+            and contract in self._last_marking_to_market_price
+        ):
+            # Lots already held keep their last mark: only the traded lots
+            # are priced against the acquisition price.
+            last_price = self._last_marking_to_market_price[contract]
+            self._holdings_margins[contract] += (
+                trade.quantity * contract.multiplier * (last_price - trade.acq_price)
+            )
+        else:
+            self._last_marking_to_market_price[contract] = trade.acq_price
+        self.marking_to_market(contract)
 
     def marking_to_market(
         self, contract: Union[AbstractContract, Sequence[AbstractContract]] = None
